@@ -337,7 +337,8 @@ def nd_from_value(interp, x, dt):
             return scalar_word(interp, v, dt.kind)
         if items is not None and any(isinstance(y, (VNd, VList, tuple, list)) for y in items):
             raise OutOfReach("np.array of nested sequences")
-        return VNd((n,), dt, get)
+        ctx.epoch += 1
+        return VNd((n,), dt, get, epoch=ctx.epoch)
     if x is None or isinstance(x, (str, VStr)):
         interp.raise_("ValueError" if isinstance(x, (str, VStr)) else "TypeError", "cannot convert to array")
     raise OutOfReach(f"np.array of {type(x).__name__}")
@@ -605,6 +606,18 @@ def as_index(interp, v):
 def nd_index(interp, a, idx):
     """a[idx] for ints / slices / tuples thereof / field names"""
     ctx = interp.ctx
+    sh = getattr(a, "symshape", None)
+    if sh is not None:
+        i = as_index(interp, idx)
+        if not is_int(i):
+            raise OutOfReach("non-integer index into an array of symbolic rank")
+        if not ctx.branch(zint(sh.rank) >= 1, "array-has-rank"):
+            interp.raise_("IndexError", "too many indices for array")
+        if not ctx.branch(And(zint(i) >= -zint(sh.dim(0)), zint(i) < zint(sh.dim(0))), "array-index-in-range"):
+            interp.raise_("IndexError", "index out of bounds")
+        sub = VNd((), a.dt, lambda *j: z3.IntVal(0))
+        sub.symshape = VShape(z3.simplify(zint(sh.rank) - 1), lambda j: sh.dim(zint(j) + 1))
+        return sub
     if isinstance(idx, str):
         if a.fields is None or idx not in a.fields:
             interp.raise_("IndexError" if a.fields is None else "ValueError", f"no field of name {idx}")
@@ -984,6 +997,14 @@ def getattr_hook(interp, obj, name):
             return VOpaque("dtype.kind")
         return NOATTR
     if isinstance(obj, VNd):
+        if getattr(obj, "symshape", None) is not None:
+            if name == "shape":
+                return obj.symshape
+            if name == "ndim":
+                return obj.symshape.rank
+            if name == "dtype":
+                return obj.dt
+            raise OutOfReach(f"attribute {name} of an array of symbolic rank")
         if name == "shape":
             return tuple(obj.shape)
         if name == "ndim":
@@ -1115,6 +1136,8 @@ def getitem_hook(interp, obj, idx):
                 raise OutOfReach("bytes slice with unproved bounds")
             return VBytes([ARaw(seq.slice(lo, hi))])
         raise OutOfReach("bytes item access")
+    if isinstance(obj, VShape):
+        return shape_getitem(interp, obj, idx)
     if isinstance(obj, VMasked):
         sub = nd_index(interp, obj.nd, idx)
         c = conc(idx) if is_int(idx) else None
@@ -1161,6 +1184,13 @@ def compare_hook(interp, op, a, b):
 
 
 def equals_hook(interp, a, b):
+    if isinstance(a, VNd) or isinstance(b, VNd):
+        if isinstance(a, VShape) or isinstance(b, VShape):
+            return NOATTR
+        from .eqmodel import elementwise_eq
+        return elementwise_eq(interp, a, b)
+    if isinstance(a, VShape) or isinstance(b, VShape):
+        return shape_eq(interp, a, b)
     if isinstance(a, (VBytes, bytes)) and isinstance(b, (VBytes, bytes)):
         if isinstance(a, bytes) and isinstance(b, bytes):
             return a == b
@@ -1229,6 +1259,9 @@ def type_hook(interp, v):
         return T_BYTES
     if isinstance(v, VFloat):
         return NP_FLOATING
+    if isinstance(v, VShape):
+        from .interp import T_TUPLE
+        return T_TUPLE
     if isinstance(v, (VBytesIO, VInFile, VSlice, VDType, VMasked, VTimestamp)):
         return OBJECT
     return None
@@ -1255,6 +1288,47 @@ def subst_hook(v, k, t, memo):
 
 from .interp import builtin_class, OBJECT as _OBJ  # noqa: E402
 NP_FLOATING = builtin_class("floating", [_OBJ])
+
+
+class VShape:
+    """shape tuple of symbolic rank: ``rank`` (int term) and ``dim(i)``"""
+
+    def __init__(self, rank, dim):
+        self.rank, self.dim = rank, dim
+
+    def py_len(self, interp):
+        return self.rank
+
+
+def shape_eq(interp, a, b):
+    ctx = interp.ctx
+    if isinstance(a, VShape) and isinstance(b, VShape):
+        j = z3.Const(f"sh!{ctx.uid()}", I)
+        return And(eq(a.rank, b.rank), z3.ForAll([j], z3.Implies(zbool(rng(0, j, a.rank)), zbool(eq(a.dim(j), b.dim(j))))))
+    sh, t = (a, b) if isinstance(a, VShape) else (b, a)
+    if isinstance(t, VList) and t.items is not None:
+        return False                       # a tuple never equals a list
+    if not isinstance(t, tuple):
+        return False
+    return And(eq(sh.rank, len(t)), *[eq(sh.dim(i), as_int(interp, x)) for i, x in enumerate(t)])
+
+
+def shape_getitem(interp, sh, idx):
+    ctx = interp.ctx
+    if isinstance(idx, VSlice):
+        if idx.step is not None or idx.stop is not None:
+            raise OutOfReach("slice of a symbolic shape other than [k:]")
+        k = conc(idx.start) if idx.start is not None else 0
+        if k is None or k < 0:
+            raise OutOfReach("slice of a symbolic shape with a negative or symbolic start")
+        return VShape(z3.simplify(If(zint(sh.rank) > k, zint(sh.rank) - k, 0)), lambda i, k=k: sh.dim(zint(i) + k))
+    i = as_int(interp, idx)
+    if not is_int(i):
+        interp.raise_("TypeError", "tuple indices must be integers")
+    ok = And(zint(i) >= -zint(sh.rank), zint(i) < zint(sh.rank))
+    if not ctx.branch(ok, "shape-index-in-range"):
+        interp.raise_("IndexError", "tuple index out of range")
+    return sh.dim(If(zint(i) < 0, zint(i) + zint(sh.rank), zint(i)))
 
 
 class VRunsList:
